@@ -27,6 +27,8 @@ Inductive ccase : Type :=
 | CSymSplit (b : bytes) (o : res (bytes * bytes))
 | CWriteSize (n : N) (o : res bytes)
 | CWriteSym (s : bytes) (o : res bytes)
+(* vm.NewLine called with these raw arguments (None = nil slice, Some [] = empty non-nil slice) *)
+| CNewLine (op : N) (strargs : list bytes) (byteargs numargs : option bytes) (o : bytes)
 (* the dev/disasm command run on a file holding b: exit status and standard output *)
 | CDisasm (b : bytes) (exit : N) (out : bytes).
 
@@ -48,6 +50,7 @@ Definition corr_ok (c : ccase) : bool :=
   | CSymSplit b o => outcome_eqb bb_eqb (sym_split b) o
   | CWriteSize n o => outcome_eqb bytes_eqb (write_size n) o
   | CWriteSym s o => outcome_eqb bytes_eqb (write_sym s) o
+  | CNewLine op strs ba na o => bytes_eqb (new_line op strs ba na) o
   | CDisasm b ex out =>
     (* dev/disasm/main.go: ToString error => "parse error" on stderr, exit 1; otherwise the listing
        is printed (through Printf, so a listing containing '%' is not compared) and exit 0 *)
@@ -68,6 +71,14 @@ Definition c14_ok (c : ccase) : bool :=
     else true
   | CEncode i nlb asmw =>
     if wf_instrb i then outcome_eqb bytes_eqb asmw (Ok nlb) else true
+  | CNewLine op strs ba na o =>
+    (* whatever instruction the reference encoding of these arguments denotes (integers in any
+       accepted form: minimal, zero-length for 0, padded), the bytes NewLine produced decode to
+       exactly that instruction and nothing is left over *)
+    match decode_one (new_line op strs ba na) with
+    | Ok (i, []) => outcome_eqb ib_eqb (decode_one o) (Ok (i, []))
+    | _ => true
+    end
   | _ => true
   end.
 
